@@ -689,8 +689,8 @@ func init() {
 	register(&Check{
 		ID:    "C09",
 		Level: "fault_enumeration",
-		Rule: "a corpus of small scenarios (4 client forms x method shapes x 3 target protocols x 5 codec/compression variants = every adapter path, 1-2 messages each way); on each, single faults are enumerated: " +
-			"every byte offset at which the request body can end (clean EOF and connection error), every offset at which the backend can stop writing, missing end of stream, every other value 0..255 of every envelope flag byte in both directions, " +
+		Rule: "a corpus of small scenarios (4 RPC client forms x method shapes x 3 RPC target protocols x 5 codec/compression variants, plus REST clients against each RPC target and RPC clients against a REST-only service = every adapter path, 1-2 messages each way); on each, single faults are enumerated: " +
+			"every byte offset at which the request body can end (clean EOF and connection error), every offset at which the backend can stop writing (for gRPC backends also under trailers that still say OK), missing end of stream, every other value 0..255 of every envelope flag byte in both directions, " +
 			"every single-bit flip of every compressed payload, frame lengths +-1/+3/huge, Content-Length +-1/+5. thorough enumerates all of them; quick draws a seeded sample of the same space, half of it from the cuts next to a frame boundary, the flag values that carry meaning in some protocol, and lengths off by one. " +
 			"oracle: an independent strict parser decides whether the faulted stream is malformed; if so the client must see a non-OK outcome, the backend's completely decoded messages must be a prefix of the valid ones, " +
 			"and the response must be terminated and well-formed; no hang (quiescence). distinct = (scenario class, fault kind, schedule hash); non-trivial = a fault was placed and the run executed",
